@@ -194,6 +194,12 @@ theorem C05_entity_sql_caches_from_source {V : Type} (F : List Val → V) (hist 
     run (fieldMemo CacheKeys.deleteSqlKey CacheKeys.deleteSqlReads F) [] hist = hist.map (cold (fieldMemo CacheKeys.deleteSqlKey CacheKeys.deleteSqlReads F)) :=
   ⟨field_history _ _ (by decide) F hist, field_history _ _ (by decide) F hist, field_history _ _ (by decide) F hist, field_history _ _ (by decide) F hist⟩
 
+/-- `ormtypes.raw_sql_cache` (`parse_raw_sql`, used by `raw_sql()` fragments): keyed by the fragment text, and the text is all the miss
+    branch reads (key and reads regenerated from ormtypes.py) -/
+theorem C05_raw_sql_cache_from_source {V : Type} (F : List Val → V) (hist : List (Op Env (List Val))) :
+    run (fieldMemo CacheKeys.rawSqlKey CacheKeys.rawSqlReads F) [] hist = hist.map (cold (fieldMemo CacheKeys.rawSqlKey CacheKeys.rawSqlReads F)) :=
+  field_history _ _ (by decide) F hist
+
 /-- `_find_sql_cache_` and `_constructed_sql_cache`: the only input a miss branch reads that is not in its key is the ACTIVE prefetch
     context (the select list's lazy columns); everything else it reads is a key component -/
 theorem C05_find_and_constructed_reads_from_source :
